@@ -1,6 +1,7 @@
 package main
 
 import (
+	"go/types"
 	"fmt"
 	"go/token"
 	"strings"
@@ -88,6 +89,33 @@ func checkC03(c *Ctx, r *Report) {
 				continue
 			}
 			v := stripConv(a)
+			// the command's request, or an empty payload in its place when it has none — through
+			// a helper or written out where it is used
+			{
+				nReq, other := 0, 0
+				for _, o := range viewOrigins(s.Fn, a) {
+					o = stripConv(o)
+					if mi, isMI := o.(*ssa.MakeInterface); isMI {
+						o = stripConv(mi.X)
+					}
+					switch x := o.(type) {
+					case *ssa.Call:
+						if x.Call.IsInvoke() && x.Call.Method.Name() == "Request" {
+							nReq++
+							continue
+						}
+					case *ssa.Const:
+						if x.Value == nil && strings.HasSuffix(types.TypeString(x.Type(), nil), "gopacket.Payload") {
+							continue
+						}
+					}
+					other++
+				}
+				if nReq > 0 && other == 0 {
+					sels = append(sels, "call(Request)")
+					continue
+				}
+			}
 			if ld, ok := v.(*ssa.UnOp); ok && ld.Op == token.MUL {
 				sels = append(sels, "*"+apOf(ld.X).SelString())
 			} else if call, ok := v.(*ssa.Call); ok {
@@ -474,13 +502,22 @@ func checkHashAlwaysReset(c *Ctx, r *Report) {
 			if _, isRet := p.Last().(*ssa.Return); !isRet {
 				return
 			}
-			dirty := map[ssa.Value]bool{}
+			// keyed by what the receiver denotes: the same hash read twice from a field (`g.hash.Write`,
+			// then `g.hash.Reset`) is one hash
+			dirty := map[string]bool{}
 			for _, oc := range p.Occs() {
 				cc := asCall(oc.In)
 				if cc == nil || !cc.IsInvoke() || !isHashHash(cc.Value.Type()) {
 					continue
 				}
-				h := p.ResolveIn(oc.Ctx, cc.Value)
+				hv := p.ResolveIn(oc.Ctx, cc.Value)
+				h := fmt.Sprintf("%p", hv)
+				if ld, isLd := hv.(*ssa.UnOp); isLd && ld.Op == token.MUL {
+					a := p.APIn(oc.Ctx, ld.X)
+					if a.Root != nil {
+						h = fmt.Sprintf("%p.%s", a.Root, a.SelString())
+					}
+				}
 				switch cc.Method.Name() {
 				case "Write":
 					dirty[h] = true
